@@ -1,4 +1,4 @@
-import Yuiv.Proofs.C11Term
+import Yuiv.Proofs.C11Prog
 /-
 C11 — the parallel pivot search returns an acyclic (triangular) pivot set under every interleaving.
 
@@ -127,6 +127,13 @@ theorem par_terminates (s : Str) (hwf : s.WF) (st : State) (h : GInv s st) :
   ⟨fun a st' o hs => step_decreases s hwf st h a st' o hs,
    fun acts st' os hr => run_length_le s hwf acts st st' os h hr⟩
 
+/-- NO DEADLOCK (model).  In every state satisfying the invariant that still has a row to start or a task in
+flight, some step is enabled and succeeds.  Together with `par_terminates`: every maximal schedule reaches,
+after finitely many steps, a state with no row left and no task in flight (all workers done). -/
+theorem par_progress (s : Str) (hwf : s.WF) (st : State) (h : GInv s st) (hwork : st.todo ≠ [] ∨ st.ws ≠ []) :
+    ∃ a st' o, step s st a = ok (st', o) :=
+  progress s hwf st h hwork
+
 /-- the code's own choice policy (`choose_candidate`: lightest column by `cmp_cols`) is admissible: the column
 it returns is still marked `Candidate` — so the deterministic code is one of the schedules covered above -/
 theorem policy_admissible (s : Str) (w : Worker) (j : Nat) (h : chooseCandidate s w = some j) :
@@ -169,6 +176,20 @@ theorem find_pivots_correct (s : Str) (hwf : s.WF) (st0 : State) (h0 : initState
   refine ⟨L, hL, ?_, ht⟩
   have hp' : st.S.Perm L := hp.symm
   exact hg.pinv.perm hp'
+
+/-- `perm_for_indices(n, rows of the pivots)` (resp. columns): for distinct in-range indices it does not panic
+(`assert!(i < n)`) and sends the `k`-th pivot's index to position `k` — so after `permute` the pivots of a
+list `L` sit at `(0,0), (1,1), …` and entry `(a, b)` of the leading block is the entry `(L[a].1, L[b].2)` of
+the matrix, which `Triangular s L` says is absent for `a > b` -/
+theorem perm_for_indices_places (n : Nat) (idx : List Nat) (hlt : ∀ i ∈ idx, i < n) (hnd : idx.Nodup) :
+    ∃ vec, permVec n idx = ok vec ∧ vec.Nodup ∧ ∀ k (hk : k < idx.length), invAt vec idx[k] = k :=
+  permVec_spec n idx hlt hnd
+
+/-- `Triangular` spelled out with positions: for `b < a` the row of the `a`-th pivot has no entry in the column
+of the `b`-th pivot -/
+theorem triangular_positions (s : Str) (L : List (Nat × Nat)) (h : Triangular s L)
+    (a b : Nat) (ha : a < L.length) (hb : b < L.length) (hlt : b < a) : L[b].2 ∉ colsIn s L[a].1 :=
+  List.pairwise_iff_getElem.1 h b a hb ha hlt
 
 /-- soundness of the decidable checker the driver applies to the list returned by the REAL `find_pivots`
 (and to the model's own `result`): distinct rows/columns, candidate entries, triangular, hence acyclic -/
